@@ -553,43 +553,55 @@ def asReadonly (o : ObjDump) : ObjDump :=
   if o.body.readonly then o else
   { o with body := bodyReadonly o.body, derivs := o.derivs.map fun d => (d.1, { d.2 with body := bodyReadonly d.2.body }) }
 
+/-- fresh copies of both arrays (`.copy()`), flag cleared -/
+def freshBody (b : Body) : Body :=
+  { b with vwritable := true, mask := (match b.mask with | .array s k _ => .array s k true | m => m), readonly := false }
+
+/-- `copy(recursive=False, readonly)` of one object (qube.py:1985-2022) -/
+def copyOne (x : ObjDump) (readonly : Bool) : ObjDump :=
+  if x.body.readonly && readonly then bare x.body
+  else if readonly then bare (bodyReadonly (freshBody x.body))
+  else bare (freshBody x.body)
+
 /-- qube.py:1985-2030 `copy(recursive, readonly)` -/
 def copy (o : ObjDump) (recursive readonly : Bool) : R ObjDump :=
-  let base := cloneBare o
-  let fresh (b : Body) : Body :=
-    { b with vwritable := true, mask := (match b.mask with | .array s k _ => .array s k true | m => m) }
-  let one (x : ObjDump) : ObjDump :=
-    if x.body.readonly && readonly then bare x.body
-    else if readonly then bare (bodyReadonly { fresh x.body with readonly := false })
-    else bare { fresh x.body with readonly := false }
-  if o.body.readonly && readonly then some base else
-  let obj := one base
+  if o.body.readonly && readonly then some (cloneBare o) else
   if recursive then
-    match insertDerivs obj (o.derivs.map fun d => (d.1, one (cloneBare d.2))) true with
+    match insertDerivs (copyOne o readonly) (o.derivs.map fun d => (d.1, copyOne d.2 readonly)) true with
     | (r, true) => some r
     | (_, false) => none
-  else some obj
+  else some (copyOne o readonly)
 
 /-! ### low-level setters -/
+
+/-- the mask after `_set_values_`: the one given, else the old one -/
+def newMask (mask : Option MaskD) (old : MaskD) : MaskD :=
+  match mask with
+  | some m => m
+  | none => old
+
+/-- qube.py:1170-1177: `if np.shape(self._mask_):` the mask array follows the read-only state of the values (a
+    read-only mask of a writable object is copied); a 0-d mask array is left as it is -/
+def setterMask (ro : Bool) : MaskD → MaskD
+  | .array s b w => if s.isEmpty then .array s b w else if ro then .array s b false else .array s b true
+  | m => m
+
+/-- qube.py:1121-1126: a mask given as an array must have the object's shape -/
+def badMaskShape (mask : Option MaskD) (shape : List Nat) : Bool :=
+  match mask with
+  | some (.array s _ _) => s != shape
+  | _ => false
 
 /-- qube.py:1104-1177 `_set_values_(values, mask)` with `antimask=None`.  The code checks the two shapes and
     nothing else; read-only state follows the new values; (repaired) the default's kind follows the values. -/
 def setValues (o : ObjDump) (v : RawArr) (mask : Option MaskD) : R ObjDump :=
   let v := v.norm
   if v.shape != o.body.vshape then none else
-  let badMask := match mask with
-    | some (.array s _ _) => s != o.body.shape
-    | _ => false
-  if badMask then none else
+  if badMaskShape mask o.body.shape then none else
   if v.kind == .other then none else
-  let ro := v.isArr && !v.writable
-  let m := match mask with | some m => m | none => o.body.mask
-  -- `if np.shape(self._mask_):` — a 0-d mask array is left as it is
-  let m := match m with
-    | .array s b w => if s.isEmpty then .array s b w else if ro then .array s b false else .array s b true
-    | m => m
   some { o with body := { o.body with varr := v.isArr, vwritable := v.writable, kind := v.kind, dkind := v.kind,
-                                       readonly := ro, mask := m } }
+                                       readonly := v.isArr && !v.writable,
+                                       mask := setterMask (v.isArr && !v.writable) (newMask mask o.body.mask) } }
 
 /-- qube.py:1187-1223 `_set_mask_(mask)` with `antimask=None`, `check=False` -/
 def setMask (o : ObjDump) (mask : RawMask) : R ObjDump :=
@@ -643,12 +655,14 @@ def rebuildDeriv (parent : Body) (dc : List (String × Collapse)) (d : String ×
     (d.1, bare { rebuildBody d.2.body .keep with mask := .array s k w })
   | _ => (d.1, bare (rebuildBody d.2.body (collapseOf d.1 dc)))
 
+/-- a derivative shares the parent's mask array; freezing a read-only derivative freezes that array -/
+def frozenByDerivs (body0 : Body) (derivs : List (String × ObjDump)) : Body :=
+  match body0.mask with
+  | .array s k w => { body0 with mask := .array s k (w && !derivs.any (fun d => d.2.body.readonly)) }
+  | _ => body0
+
 def setstate (o : ObjDump) (c : Collapse) (dc : List (String × Collapse)) : R ObjDump :=
-  let body0 := rebuildBody o.body c
-  -- a derivative shares the parent's mask array; freezing a read-only derivative freezes that array
-  let body := match body0.mask with
-    | .array s k w => { body0 with mask := .array s k (w && !o.derivs.any (fun d => d.2.body.readonly)) }
-    | _ => body0
+  let body := frozenByDerivs (rebuildBody o.body c) o.derivs
   match insertDerivs (bare body) (o.derivs.map (rebuildDeriv body dc)) true with
   | (r, true) => some r
   | (_, false) => none
@@ -701,10 +715,9 @@ def setterGuard (o : ObjDump) (v : RawArr) (mask : Option MaskD) : Bool :=
   -- read-only values only for an object whose derivatives are read-only and whose mask is not a 0-d array
   (!(v.isArr && !v.writable) ||
     (o.derivs.all (fun d => d.2.body.readonly) &&
-     (match mask, o.body.mask with
-      | some (.array s _ _), _ => !s.isEmpty
-      | none, .array s _ _ => !s.isEmpty
-      | _, _ => true)))
+     (match newMask mask o.body.mask with
+      | .array s _ _ => !s.isEmpty
+      | _ => true)))
 
 /-- what one call does to the pool: nothing (it raised), replace an object (in-place methods), or hand back an object -/
 inductive Effect where
